@@ -72,10 +72,12 @@ func (apo *Apo[T]) Compute(c <-chan T) <-chan T {
 
 	fastEma := NewEma[T]()
 	fastEma.Period = apo.FastPeriod
+	fastEma.Smoothing = apo.FastSmoothing
 	cs[0] = fastEma.Compute(cs[0])
 
 	slowEma := NewEma[T]()
 	slowEma.Period = apo.SlowPeriod
+	slowEma.Smoothing = apo.SlowSmoothing
 	cs[1] = slowEma.Compute(cs[1])
 
 	return helper.Subtract(cs[0], cs[1])
